@@ -38,7 +38,7 @@ static const char *const PS[][6] = {
 	{ "/a", NULL },
 	{ "/a", "/a/", "/a/b", "/", NULL },
 	{ "/A", "/a b", "/a+b", "/a%2Fb", "/a?x", NULL },
-	{ "/%61", "//a", "/a;p", "/a%", "/a\x01", NULL },
+	{ "/%61", "/a;p", "/a%", "/a\x01", "/a/../a", NULL },
 };
 #define NPS 5
 
@@ -48,10 +48,10 @@ static const struct tgt TG[] = {
 	{ "pct-letter", "/%61" }, { "pct-first-slash", "/%2Fa" }, { "pct-nul", "/a%00b" }, { "pct-nul", "/a%00" }, { "pct-nul", "/%00" },
 	{ "query", "/a?x" }, { "query-with-slash", "/a?x=/a/" }, { "empty-query", "/a/?" }, { "case", "/A" }, { "pct-space", "/a%20b" },
 	{ "plus", "/a+b" }, { "root", "/" }, { "unregistered", "/zz" }, { "pct-incomplete", "/a%" }, { "pct-incomplete", "/a%4" },
-	{ "pct-nonhex", "/a%zz" }, { "pct-pct", "/%2561" }, { "double-slash", "//a" }, { "semicolon", "/a;p" }, { "pct-question", "/a%3Fx" },
+	{ "pct-nonhex", "/a%zz" }, { "pct-pct", "/%2561" }, { "inner-double-slash", "/a//b" }, { "semicolon", "/a;p" }, { "pct-question", "/a%3Fx" },
 	{ "pct-ctl", "/a%01" }, { "dot-segments", "/a/../a" },
 	{ "absolute-form", "http://h/a" }, { "absolute-form", "http://www.ex.com/a" }, { "absolute-form", "http://WWW.EX.COM:81/a/" },
-	{ "absolute-form", "http://ex/a" }, { "absolute-form", "https://alias.org/a%00b" }, { "absolute-form", "http://u@bar.ex.com:8/zz?q" },
+	{ "absolute-form", "http://ex/a" }, { "pct-nul", "https://alias.org/a%00b" }, { "absolute-form", "http://u@bar.ex.com:8/zz?q" },
 };
 #define NTG ((int)(sizeof TG / sizeof TG[0]))
 
@@ -135,11 +135,12 @@ static int ref_alias_search(const struct vstruct *v, int node, const char *host)
 		if (v->nd[ch].parent == node) { int r = ref_alias_search(v, ch, host); if (r >= 0) return r; }
 	return -1;
 }
-static int ref_vhost(const struct vstruct *v, const char *host)
+static int ref_vhost(const struct vstruct *v, const char *host, int *via_alias)
 {
 	int node = 0, r;
+	*via_alias = 0;
 	if (!host) return 0;
-	if ((r = ref_alias_search(v, 0, host)) >= 0) return r;
+	if ((r = ref_alias_search(v, 0, host)) >= 0) { *via_alias = 1; return r; }
 	for (;;) {
 		int next = -1;
 		for (int ch = 0; ch < v->n; ch++)
@@ -188,7 +189,7 @@ static void ref_host_header(const char *hv, char *out, size_t cap)
 	snprintf(out, cap, "%.*s", (int)n, hv);
 }
 
-struct verdict { int status; int cb; int node; int host_present; char host[128]; };
+struct verdict { int status; int cb; int node; int via_alias; int host_present; char host[128]; };
 
 static void ref_route(const struct cfg *c, struct verdict *v)
 {
@@ -201,7 +202,7 @@ static void ref_route(const struct cfg *c, struct verdict *v)
 	ref_split(TG[c->tg].text, v->host, sizeof v->host, &has, path, sizeof path);
 	v->host_present = has;
 	if (!has && HOSTS[c->host]) { ref_host_header(HOSTS[c->host], v->host, sizeof v->host); v->host_present = 1; }
-	v->node = ref_vhost(vs, v->host_present ? v->host : NULL);
+	v->node = ref_vhost(vs, v->host_present ? v->host : NULL, &v->via_alias);
 	size_t dl = ref_pct_decode(path, dec);
 	for (int i = 0; PS[c->ps][i]; i++)
 		if (strlen(PS[c->ps][i]) == dl && !memcmp(PS[c->ps][i], dec, dl)) { v->status = 200; v->cb = v->node * 10 + i; return; }
@@ -276,8 +277,14 @@ static void item(uint64_t it)
 		if (v.cb >= 0) MC_COUNT(v.cb % 10 == 9 ? "oracle_route_gencb" : "oracle_route_path_cb"); else MC_COUNT("oracle_route_404");
 		if (v.node) MC_COUNT("oracle_vhost_selected"); else MC_COUNT("oracle_vhost_root");
 		if (got_cb != v.cb || got_status != v.status) {
-			if (got_cb >= 0 && v.cb >= 0 && got_node != v.node)
-				snprintf(key, sizeof key, "C30/wrong-vhost/%s/host:%s", VS[c.vs].name, v.host_present ? (v.host[0] ? v.host : "(empty)") : "(none)");
+			if (got_cb >= 0 && v.cb >= 0 && got_node != v.node) {
+				/* class of the vhost the reference chose: by alias, or by which kind of pattern */
+				const char *pat = VS[c.vs].nd[v.node].pattern;
+				const char *cls = v.node == 0 ? "root" : v.via_alias ? "alias" :
+				    pat[strlen(pat) - 1] == '*' ? "pattern-ending-in-star" : pat[0] == '*' ? "pattern-starting-with-star" :
+				    strchr(pat, '*') ? "pattern-with-inner-star" : "literal-pattern";
+				snprintf(key, sizeof key, "C30/wrong-vhost/expected-%s", cls);
+			}
 			else if (got_status == 400)
 				snprintf(key, sizeof key, "C30/routable-request-rejected/target:%s", ttag);
 			else
